@@ -1,3 +1,4 @@
+use crate::bitvec::*;
 use crate::engine::*;
 
 
@@ -43,8 +44,16 @@ where
     fn execute(&mut self, _: bool, scratchpad: &mut Scratchpad<'a>) -> Result<(), QueryError> {
         let (data, present) = scratchpad.get_nullable(self.input);
         let (mut output, mut output_present) = scratchpad.get_mut_nullable(self.output);
+        // The presence bits of this chunk start at bit 0 of `present`, but at bit `output.len()` of the buffered
+        // bitmap. That is not a byte boundary when an earlier chunk had a length that is not a multiple of 8
+        // (e.g. the output of a filter), so the bytes cannot simply be appended.
+        let offset = output.len();
         output.extend(data.iter());
-        output_present.extend(present.iter());
+        for i in 0..data.len() {
+            if (*present).is_set(i) {
+                output_present.set(offset + i);
+            }
+        }
         Ok(())
     }
 
